@@ -22,8 +22,9 @@ for name in sys.argv[1:]:
     parts = name.split('-')
     pid, i = parts[0], parts[-1]
     wave2 = len(parts) == 3
-    wt = '/tmp/mut-%s' % pid
-    src = os.path.join(wt, '_mut2' if wave2 else '_mut')
+    wave = int(parts[1][1:]) if wave2 else 1
+    wt = '/tmp/mut-%s' % pid if wave <= 2 else '/tmp/mut%d-%s' % (wave, pid)
+    src = os.path.join(wt, '_mut%d' % wave if wave2 else '_mut')
     dst = os.path.join(HERE, 'seeded', name)
     os.makedirs(dst, exist_ok=True)
     # regenerate the patch against the current HEAD
@@ -65,7 +66,7 @@ for name in sys.argv[1:]:
     meta = {
         'property': prop,
         'origin': 'independent sub-agent given only the property text and a scratch worktree' + (
-            ' (second wave: told which mechanisms the first wave had touched and asked for different ones)' if wave2 else ''),
+            ' (wave %d: told which mechanisms the earlier waves had touched and asked for different ones)' % wave if wave2 else ''),
         'patch_against_repo_head': head,
         'what_it_breaks_and_needs': ' '.join(notes.split())[:900],
         'confirmed': {
